@@ -72,8 +72,18 @@ def inpOf : Json → Option Inp
   | .arr [.str tag, a, n, par, k] =>
     if tag = S "launch" then
       match natOf a, natOf n, parOf par, natOf k with
-      | some a, some n, some par, some k => some (.launch a n par k)
+      | some a, some n, some par, some k => some (.launch a n n par k)
       | _, _, _, _ => none
+    else if tag = S "batch" then
+      match natOf a, natOf n, natOf par, boolOf k with
+      | some a, some lo, some hi, some l => some (.batch a lo hi l)
+      | _, _, _, _ => none
+    else none
+  | .arr [.str tag, a, n, hi, par, k] =>
+    if tag = S "launchMap" then
+      match natOf a, natOf n, natOf hi, parOf par, natOf k with
+      | some a, some n, some hi, some par, some k => some (.launch a n hi par k)
+      | _, _, _, _, _ => none
     else none
   | _ => none
 
@@ -113,6 +123,7 @@ def slotJ : Slot → Json
   | .caughtTask => t "CT"
   | .done _ => t "D"
   | .terminated => t "Z"
+  | .unlaunched => t "U"
 
 def attJ (x : Attempt) : Json :=
   .arr [n x.id, .bool x.seen, .bool x.terminated, .bool x.joined, .arr (x.slots.map slotJ)]
